@@ -217,7 +217,7 @@ PROPS = {
         level_text='Theorem sem_order (Coq, no axioms): in the reference semantics, for every program and every choice of inner() call counts, the '
                    'call log is the listed order, each provider once per traversal, the remainder once per inner() call; exec_refines_sem and '
                    'static_refines transfer it to the machine (same final world for every behaviour; static part = fold over the listed order). '
-                   'Tied to /repo by comparing the final working order and the call log.',
+                   'Tied to /repo by comparing the final working order and the call log. C05_selection_keeps_the_list (selection only marks: the list it returns is the list it was given, entry by entry) and C05_final_list_is_listed_order (without Reorder the final working list is the assembled list), both without hypotheses.',
         level_note=CHAIN_NOTE, design_ref='DESIGN.md section 8 (C05)',
         assumptions=['plan_wf holds on the case (checked on every bound case of the run)'],
     ),
@@ -402,7 +402,7 @@ PROPS = {
         level_text='Theorems chain_refines / compile_all_skips_excluded (run time: behaviour is the reference semantics of the plan, which mentions included '
                    'providers only) and C16_included_self_sufficient_partial (the included set passes all checks using included providers only); Coq, no axioms. '
                    'Idempotence of the selection heuristic under deletion is NOT proved: it is validated by the differential stream and refuted on chains with '
-                   'Shun (known finding D6).',
+                   'Shun (known finding D6). C16_exclusion_is_a_mark: the excluded providers stay in the working list, unchanged, nothing is reordered around them.',
         level_note=CHAIN_NOTE + ' Known finding D6e is replayed on every run.', design_ref='DESIGN.md section 8 (C16)',
         assumptions=['bind-time inertness validated differentially, not proved'],
     ),
